@@ -20,7 +20,10 @@ def tc(v):
     return v - (1 << 32) if v >= (1 << 31) else v
 
 
-LABEL = re.compile(r'(?P<unres>unresolved )?(?P<type>\?\?\?|\w+)@(?P<id>\d+)(?P<letters>[a-z]+|\?)')
+# the incarnation letters are a..z runs (or `?`); anything else the tool might print there (a wrong symbol, nothing at all) is
+# still lexed as a label, so that a mislabelled mention is reported as a wrong incarnation and not as an unreadable line
+LETTERS = r'(?:[a-z]+|\?|[^\sA-Za-z0-9_.,()\[\]=&:"\'-]{1,4}[a-z]*|(?=[.,)\]]| --|$))'
+LABEL = re.compile(r'(?P<unres>unresolved )?(?P<type>\?\?\?|\w+)@(?P<id>\d+)(?P<letters>' + LETTERS + ')')
 
 
 def lex_label(text):
@@ -151,7 +154,7 @@ def lex_args(s, i):
         raise ValueError('cannot lex args at %r' % s[i:i + 30])
 
 
-MSG_HEAD = re.compile(r'(?P<sent>→ )?(?P<label>(?:unresolved )?(?:\?\?\?|\w+)@\d+(?:[a-z]+|\?))\.(?P<name>\w+)\(')
+MSG_HEAD = re.compile(r'(?P<sent>→ )?(?P<label>(?:unresolved )?(?:\?\?\?|\w+)@\d+' + LETTERS + r')\.(?P<name>\w+)\(')
 
 
 def lex_message_body(s):
@@ -171,7 +174,7 @@ def lex_message_body(s):
         received_mark = True
         rest = rest[:-2]
     if rest:
-        d = re.fullmatch(r' -- (?P<label>(?:unresolved )?(?:\?\?\?|\w+)@\d+(?:[a-z]+|\?))\.destroyed(?: after (?P<life>-?\d+\.\d{4})s)?', rest)
+        d = re.fullmatch(r' -- (?P<label>(?:unresolved )?(?:\?\?\?|\w+)@\d+' + LETTERS + r')\.destroyed(?: after (?P<life>-?\d+\.\d{4})s)?', rest)
         if not d:
             return None
         out['dest'] = lex_label(d.group('label'))
